@@ -1,0 +1,197 @@
+// Copyright 2018-present the CoreDHCP Authors. All rights reserved
+// This source code is licensed under the MIT license found in the
+// LICENSE file in the root directory of this source tree.
+
+//go:build verif
+
+package server
+
+// Verification hooks (build tag `verif`): feed raw datagrams to
+// HandleMsg4/HandleMsg6 exactly as Serve does, and record what would have been
+// written to the socket (or to the raw AF_PACKET socket) instead of writing it.
+// Nothing in this file is compiled into a normal build.
+
+import (
+	"bytes"
+	"net"
+	"runtime"
+	"strconv"
+	"sync"
+
+	"github.com/coredhcp/coredhcp/handler"
+	"github.com/insomniacslk/dhcp/dhcpv4"
+	"golang.org/x/net/ipv4"
+	"golang.org/x/net/ipv6"
+)
+
+// Sent describes one datagram (or layer-2 frame) the server tried to send.
+type Sent struct {
+	// Payload is the UDP payload passed to WriteTo (nil for layer-2 frames)
+	Payload []byte
+	// Peer is the destination passed to WriteTo (nil for layer-2 frames)
+	Peer *net.UDPAddr
+	// HasCM tells whether a control message was passed, IfIndex is its interface index
+	HasCM   bool
+	IfIndex int
+	// L2 is set for frames emitted through sendEthernet; Frame is the
+	// serialised ethernet frame and L2IfIndex/L2IfName the interface it would
+	// have been sent on
+	L2        bool
+	Frame     []byte
+	L2IfIndex int
+	L2IfName  string
+}
+
+type verifSink struct {
+	mu   sync.Mutex
+	sent []Sent
+}
+
+func (s *verifSink) add(x Sent) {
+	s.mu.Lock()
+	s.sent = append(s.sent, x)
+	s.mu.Unlock()
+}
+
+var (
+	// listener (one per Feed call) -> sink
+	verifSinks4 sync.Map // *listener4 -> *verifSink
+	verifSinks6 sync.Map // *listener6 -> *verifSink
+	// goroutine id -> sink, for frames emitted by sendEthernet, which has no
+	// reference to the listener
+	verifFrameSinks sync.Map // uint64 -> *verifSink
+)
+
+func verifGoID() uint64 {
+	var buf [64]byte
+	b := buf[:runtime.Stack(buf[:], false)]
+	b = bytes.TrimPrefix(b, []byte("goroutine "))
+	if i := bytes.IndexByte(b, ' '); i >= 0 {
+		b = b[:i]
+	}
+	n, _ := strconv.ParseUint(string(b), 10, 64)
+	return n
+}
+
+// WriteTo shadows the method promoted from the embedded *ipv4.PacketConn
+func (l *listener4) WriteTo(b []byte, cm *ipv4.ControlMessage, dst net.Addr) (int, error) {
+	if s, ok := verifSinks4.Load(l); ok {
+		x := Sent{Payload: append([]byte(nil), b...)}
+		if u, ok := dst.(*net.UDPAddr); ok && u != nil {
+			cp := *u
+			cp.IP = append(net.IP(nil), u.IP...)
+			x.Peer = &cp
+		}
+		if cm != nil {
+			x.HasCM, x.IfIndex = true, cm.IfIndex
+		}
+		s.(*verifSink).add(x)
+		return len(b), nil
+	}
+	return l.PacketConn.WriteTo(b, cm, dst)
+}
+
+// WriteTo shadows the method promoted from the embedded *ipv6.PacketConn
+func (l *listener6) WriteTo(b []byte, cm *ipv6.ControlMessage, dst net.Addr) (int, error) {
+	if s, ok := verifSinks6.Load(l); ok {
+		x := Sent{Payload: append([]byte(nil), b...)}
+		if u, ok := dst.(*net.UDPAddr); ok && u != nil {
+			cp := *u
+			cp.IP = append(net.IP(nil), u.IP...)
+			x.Peer = &cp
+		}
+		if cm != nil {
+			x.HasCM, x.IfIndex = true, cm.IfIndex
+		}
+		s.(*verifSink).add(x)
+		return len(b), nil
+	}
+	return l.PacketConn.WriteTo(b, cm, dst)
+}
+
+// verifCaptureFrame is called by sendEthernet once the frame is serialised
+func verifCaptureFrame(iface net.Interface, resp *dhcpv4.DHCPv4, frame []byte) bool {
+	s, ok := verifFrameSinks.Load(verifGoID())
+	if !ok {
+		return false
+	}
+	s.(*verifSink).add(Sent{
+		L2:        true,
+		Frame:     append([]byte(nil), frame...),
+		L2IfIndex: iface.Index,
+		L2IfName:  iface.Name,
+	})
+	return true
+}
+
+// Capture4 is a DHCPv4 listener without a socket
+type Capture4 struct {
+	ifi      net.Interface
+	handlers []handler.Handler4
+}
+
+// Capture6 is a DHCPv6 listener without a socket
+type Capture6 struct {
+	ifi      net.Interface
+	handlers []handler.Handler6
+}
+
+// NewCapture4 builds a DHCPv4 listener around the handler chain. ifi is the
+// interface the listener is bound to, or nil for an unbound listener
+func NewCapture4(handlers []handler.Handler4, ifi *net.Interface) *Capture4 {
+	c := &Capture4{handlers: handlers}
+	if ifi != nil {
+		c.ifi = *ifi
+	}
+	return c
+}
+
+// NewCapture6 builds a DHCPv6 listener around the handler chain. ifi is the
+// interface the listener is bound to, or nil for an unbound listener
+func NewCapture6(handlers []handler.Handler6, ifi *net.Interface) *Capture6 {
+	c := &Capture6{handlers: handlers}
+	if ifi != nil {
+		c.ifi = *ifi
+	}
+	return c
+}
+
+// Feed hands one datagram to HandleMsg4 the way Serve does (buffer taken from
+// the pool, resliced, handler called with buf[:n]) in the calling goroutine and
+// returns what the server tried to send. Panics propagate to the caller.
+func (c *Capture4) Feed(datagram []byte, oob *ipv4.ControlMessage, peer *net.UDPAddr) []Sent {
+	l := &listener4{Interface: c.ifi, handlers: c.handlers}
+	sink := &verifSink{}
+	gid := verifGoID()
+	verifSinks4.Store(l, sink)
+	verifFrameSinks.Store(gid, sink)
+	defer verifSinks4.Delete(l)
+	defer verifFrameSinks.Delete(gid)
+
+	b := *bufpool.Get().(*[]byte)
+	b = b[:MaxDatagram]
+	n := copy(b, datagram)
+	l.HandleMsg4(b[:n], oob, peer)
+
+	sink.mu.Lock()
+	defer sink.mu.Unlock()
+	return sink.sent
+}
+
+// Feed hands one datagram to HandleMsg6 the way Serve does and returns what
+// the server tried to send. Panics propagate to the caller.
+func (c *Capture6) Feed(datagram []byte, oob *ipv6.ControlMessage, peer *net.UDPAddr) []Sent {
+	l := &listener6{Interface: c.ifi, handlers: c.handlers}
+	sink := &verifSink{}
+	verifSinks6.Store(l, sink)
+	defer verifSinks6.Delete(l)
+
+	b := *bufpool.Get().(*[]byte)
+	b = b[:MaxDatagram]
+	n := copy(b, datagram)
+	l.HandleMsg6(b[:n], oob, peer)
+
+	sink.mu.Lock()
+	defer sink.mu.Unlock()
+	return sink.sent
+}
